@@ -1165,6 +1165,91 @@ class Mut:
         t['bases'].remove(self.rnd.choice(t['bases']))
         return 'drop-base'
 
+    def reorder_bases(self, s, feat):
+        ts = [t for t in s.types() if len(t['bases']) >= 2]
+        if not ts:
+            return None
+        t = self.rnd.choice(ts)
+        old = list(t['bases'])
+        for _ in range(5):
+            self.rnd.shuffle(t['bases'])
+            if t['bases'] != old:
+                return 'reorder-bases'
+        t['bases'] = old[::-1]
+        return 'reorder-bases'
+
+    def insert_two_bases(self, s, feat):
+        """`extending X, Z` -> `extending W, X, Y, Z`: two NEW bases at non-adjacent positions"""
+        ts = [t for t in s.types() if len(t['bases']) >= 1]
+        if not ts:
+            return None
+        t = self.rnd.choice(ts)
+        new = []
+        for _ in range(2):
+            d = {'k': 'type', 'uid': s.uid(), 'name': self.g.fresh(s, NAMES_T), 'mod': 'default',
+                 'abstract': self.rnd.random() < 0.5, 'bases': [], 'ptrs': [], 'indexes': [], 'cons': [], 'annos': [],
+                 'policies': [], 'triggers': []}
+            s.decls.insert(s.decls.index(t), d)
+            new.append(d['uid'])
+        if self.rnd.random() < 0.5:
+            # the new bases already exist in A?  no: they are created in the same migration
+            pass
+        t['bases'].insert(0, new[0])
+        t['bases'].insert(min(2, len(t['bases'])), new[1])
+        return 'insert-two-bases'
+
+    def rename_abstract_and_concrete(self, s, feat):
+        ps = self._ptrs(s, lambda t, p: p.get('extending') is not None and s.get(p['extending']) is not None)
+        if not ps:
+            return None
+        t, p = self.rnd.choice(ps)
+        if any(p['name'] in {q['name'] for q in a['ptrs']} for a in s.ancestors(t)):
+            return None
+        d = s.get(p['extending'])
+        d['name'] = d['name'].rstrip('0123456789') + str(self.rnd.randrange(100, 999))
+        old = p['name']
+        new = self.g.fresh(s, NAMES_L if p['kind'] == 'link' else NAMES_P, s.hier_ptr_names(t) | {'id'})
+        p['name'] = new
+        for c in s.descendants(t):
+            for q in c['ptrs']:
+                if q['name'] == old:
+                    q['name'] = new
+        return 'rename-abstract-and-concrete-pointer'
+
+    def drop_from_one_base(self, s, feat):
+        """two bases define the same (non-overloaded) pointer; drop it from only one of them"""
+        cands = []
+        for t in s.types():
+            bs = [s.get(b) for b in t['bases'] if s.get(b) is not None]
+            for i, x in enumerate(bs):
+                for y in bs[i + 1:]:
+                    for p in x['ptrs']:
+                        if any(q['name'] == p['name'] for q in y['ptrs']):
+                            cands.append((x, y, p['name']))
+        if not cands:
+            return None
+        x, y, nm = self.rnd.choice(cands)
+        side = self.rnd.choice([x, y])
+        side['ptrs'] = [p for p in side['ptrs'] if p['name'] != nm]
+        return 'drop-pointer-from-one-of-two-bases'
+
+    def drop_overloaded_attr(self, s, feat):
+        """an overloaded pointer stops overriding an attribute its parent also sets"""
+        cands = []
+        for t in s.types():
+            for p in t['ptrs']:
+                for a in s.ancestors(t):
+                    for q in a['ptrs']:
+                        if q['name'] == p['name'] and p.get('computed') is None:
+                            for fld in ('default', 'readonly'):
+                                if p.get(fld) and q.get(fld):
+                                    cands.append((p, fld))
+        if not cands:
+            return None
+        p, fld = self.rnd.choice(cands)
+        p[fld] = None
+        return 'drop-overloaded-' + fld
+
     def add_type(self, s, feat):
         self.g.mk_type(s, feat)
         return 'add-type'
@@ -1389,7 +1474,8 @@ class Mut:
            ('toggle_card', 5), ('toggle_required', 5), ('retarget', 5), ('add_ptr', 8), ('drop_ptr', 6),
            ('move_ptr_to_parent', 4), ('move_ptr_to_child', 2), ('add_overload', 3), ('toggle_lprop', 4),
            ('computed_stored', 4), ('change_computed', 2), ('toggle_abstract', 4), ('add_base', 4),
-           ('drop_base', 4), ('add_type', 5), ('drop_type', 5), ('add_misc', 4), ('drop_misc', 3),
+           ('drop_base', 4), ('reorder_bases', 3), ('insert_two_bases', 2), ('rename_abstract_and_concrete', 2),
+           ('drop_from_one_base', 2), ('drop_overloaded_attr', 2), ('add_type', 5), ('drop_type', 5), ('add_misc', 4), ('drop_misc', 3),
            ('change_misc', 4), ('toggle_decoration', 14), ('toggle_module', 2)]
 
     def mutate(self, s: Schema, n, feat, careful=True):
@@ -1469,6 +1555,40 @@ def gen_pair(rnd, rich=True):
     return render(a), render(b), m
 
 
+def enrich(g: Gen, s: Schema, feat):
+    """add the shapes that the shape-specific operators need (kept small and always valid)"""
+    def T(name, **kw):
+        d = {'k': 'type', 'uid': s.uid(), 'name': g.fresh(s, [name]), 'mod': 'default', 'abstract': False, 'bases': [],
+             'ptrs': [], 'indexes': [], 'cons': [], 'annos': [], 'policies': [], 'triggers': []}
+        d.update(kw)
+        s.decls.append(d)
+        return d
+
+    def P(name, typ, kind='property', **kw):
+        p = {'uid': s.uid(), 'kind': kind, 'name': name, 'card': 'single', 'required': False, 'target': typ,
+             'cons': [], 'annos': [], 'lprops': [], 'rewrites': []}
+        p.update(kw)
+        return p
+    al = {'k': 'alink', 'uid': s.uid(), 'name': g.fresh(s, ['rel_x']), 'mod': 'default', 'annos': [],
+          'lprops': [P('w_', ('std', 'int64'))]}
+    ap = {'k': 'aprop', 'uid': s.uid(), 'name': g.fresh(s, ['tracked_x']), 'mod': 'default', 'annos': []}
+    s.decls += [al, ap]
+    pa = T('PA')
+    pb = T('PB')
+    pa['ptrs'].append(P('shared_', ('std', 'str')))
+    pb['ptrs'].append(P('shared_', ('std', 'str')))
+    pb['ptrs'].append(P('onlyb_', ('std', 'int64')))
+    T('PC', bases=[pa['uid'], pb['uid']])
+    op = T('OP')
+    op['ptrs'].append(P('xdef_', ('std', 'int64'), default=['1']))
+    op['ptrs'].append(P('lnk_', ('obj', pa['uid']), kind='link', extending=al['uid']))
+    op['ptrs'].append(P('trk_', ('std', 'str'), extending=ap['uid']))
+    oc = T('OC', bases=[op['uid']])
+    oc['ptrs'].append(P('xdef_', ('std', 'int64'), default=['5']))
+    feat |= {'ptr:overloaded', 'ptr:extending-abstract', 'inheritance:multiple', 'link:abstract-def', 'property:abstract-def'}
+    return s
+
+
 def gen_sweep_struct(rnd):
     """one pair per mutation operator (and per decoration kind), each applied alone to a rich base
     schema: guarantees that every operator kind is exercised in every run.  -> [(A, B, meta)]"""
@@ -1486,10 +1606,12 @@ def gen_sweep_struct(rnd):
             break
     if base is None:
         base = g.schema(size=5)
+    enrich(g, base[0], base[1])
     for op, kind in todo:
         for attempt in range(40):
             if attempt and attempt % 10 == 0:
                 base = g.schema(size=5)          # operator not applicable to this base: try another one
+                enrich(g, base[0], base[1])
             b = base[0].clone()
             feat = set(base[1])
             try:
@@ -1804,6 +1926,26 @@ PROPOSED = {
                 'delta that prints no DDL',
         'replay': 'A: module default { abstract type Tag { multi link tags -> default::Tag; }; type Card extending default::Tag; } '
                   'B: the same with `multi link tags -> default::Tag { on target delete restrict; }`'},
+    'C02-reorder-bases': {
+        'property': 'C02',
+        'site': 'edb/schema/inheriting.py::RebaseInheritingObject / _compute_new_bases (a base that is already present is '
+                'never moved by `EXTENDING b BEFORE a`)',
+        'predicate': 'B lists the same set of bases of a type as A, in a different order (pure reorder)',
+        'what': 'the computed script `ALTER TYPE C EXTENDING Y BEFORE X;` is accepted but bases / ancestors stay X, Y; '
+                'delta_schemas(result, target) is again that statement (the migration never converges)',
+        'replay': 'A: module default { type X { property a -> str; }; type Y { property b -> str; }; type C extending default::X, default::Y; } '
+                  'B: the same with `type C extending default::Y, default::X`'},
+    'C02-drop-overloaded-default': {
+        'property': 'C02',
+        'site': 'edb/schema/pointers.py / inheriting.py (an overloaded pointer that stops overriding `default`: compare / '
+                'as_alter_delta produce no command to fall back to the inherited value)',
+        'predicate': 'a child declares `overloaded property x { default := v2 }`, the parent declares `default := v1`; B keeps '
+                     'the overload but drops its default',
+        'what': 'the computed script is empty; after COMMIT the child keeps default v2 (target: inherited v1, `default` in '
+                'inherited_fields); delta_schemas(result, target) is a non-empty delta that prints no DDL; the raw command '
+                'tree applied directly does reach the target',
+        'replay': 'A: module default { type P { property x -> int64 { default := (1); }; }; type Ch extending default::P '
+                  '{ overloaded property x -> int64 { default := (5); }; }; }  B: the same with `overloaded property x -> int64;`'},
     'C02-tree-form-bookkeeping': {
         'property': 'C02',
         'site': 'edb/schema/delta.py DeltaRoot.apply of the tree returned by delta_schemas (functions.py RenameCallableObject, '
@@ -1843,6 +1985,18 @@ def _diff_items(cmpres):
     return items
 
 
+def _base_lists(text):
+    import re
+    return {m.group(1): [b.strip().split('::')[-1] for b in m.group(2).split(',')]
+            for m in re.finditer(r'type (\w+) extending ([\w:, ]+?)\s*[{;]', text)}
+
+
+def same_bases_reordered(a_text, b_text):
+    """some type has the same SET of bases in A and B but in a different order"""
+    a, b = _base_lists(a_text), _base_lists(b_text)
+    return any(n in b and a[n] != b[n] and sorted(a[n]) == sorted(b[n]) for n in a)
+
+
 def classify_monitor(form, cmpres, mon, a_text, b_text, script):
     """finding id proposed for a failed monitor, or None"""
     if not isinstance(cmpres, dict) or 'rejected' in cmpres:
@@ -1858,6 +2012,18 @@ def classify_monitor(form, cmpres, mon, a_text, b_text, script):
             and 'on target delete restrict' in b_text and 'on target delete restrict' not in a_text \
             and (form == 'text' or cmpres.get('own_diff') == ''):
         return 'C02-explicit-default-on-target-delete'
+    if form in ('commit', 'text') and items and all(f in ('bases', 'ancestors') for _, f in items) \
+            and (form == 'text' or ' before ' in (cmpres.get('own_diff') or '').lower()
+                 or ' first' in (cmpres.get('own_diff') or '').lower()
+                 or ' last' in (cmpres.get('own_diff') or '').lower()) \
+            and script and 'EXTENDING' in script.upper() and 'DROP EXTENDING' not in script.upper() \
+            and same_bases_reordered(a_text, b_text):
+        return 'C02-reorder-bases'
+    if form in ('commit', 'text') and items and items <= {('Property', 'default'), ('Link', 'default'),
+                                                           ('Property', 'inherited_fields'), ('Link', 'inherited_fields')} \
+            and any(f == 'default' for _, f in items) and 'overloaded' in a_text and 'overloaded' in b_text \
+            and (form == 'text' or cmpres.get('own_diff') == ''):
+        return 'C02-drop-overloaded-default'
     if form in ('commit', 'text') and 'drop extending' in (cmpres.get('own_diff') or '').lower() \
             and script and 'DROP EXTENDING' in script.upper() and 'RENAME TO' in script.upper():
         import re
